@@ -361,6 +361,7 @@ class Exec(object):
         if t.kind == 'opt' and v.t == t.args[0]: return SV(t, parts(t)[2](v.z))
         if t.kind == 'opt' and v.t == NONE: return SV(t, parts(t)[1])
         if t == WORD and v.t == ATOM: return SV(WORD, Word.snoc(Word.nil, v.z))
+        if self.spec_mode and v.t.kind == 'opt' and v.t.args[0] == t: return SV(t, parts(v.t)[3](v.z))      # spec only: the value held by an Optional (meaningful under `x is not None`)
         if t.kind == 'map' and v.t.kind == 'map' and t.args[:2] == v.t.args[:2]: return SV(t, v.z)      # dict / defaultdict: same content
         raise Unsupported('cannot use %s as %s' % (v.t, t))
 
@@ -867,6 +868,12 @@ class Exec(object):
             self.elem_sets[str(r.z)] = v
             return r
         raise Unsupported('list(%s)' % v.t)
+
+    def b_the(self, p, e):
+        """spec only: the value held by an Optional (meaningful under `x is not None`)"""
+        v = self.ev(p, e.args[0])
+        if not self.spec_mode or v.t.kind != 'opt': raise Unsupported('the() of %s' % v.t)
+        return SV(v.t.args[0], parts(v.t)[3](v.z))
 
     def b_trig(self, p, e):
         """spec only: trig(body, t1, t2, ...) is body; the terms t1.. become the instantiation trigger (a multi-pattern) of the
@@ -1460,7 +1467,16 @@ class Exec(object):
         for q in frame['breaks']:
             for hint in L.get('exit_hints', []): q.pc.append(self.spec(q, hint))
             outs.append(q)
+        self.after_loop(outs, n, L)
         return outs
+
+    def after_loop(self, outs, n, L):
+        """hints stated just after a loop: each is proved on every path leaving the loop (normal exit and breaks), then assumed"""
+        for q in outs:
+            for i, hint in enumerate(L.get('after', [])):
+                g = self.spec(q, hint)
+                self.oblig(q, 'loop%d/after#%d' % (n, i + 1), 'assert', g)
+                q.pc.append(g)
 
     def before_loop(self, p, n, L):
         """hints stated just before a loop: each is proved on the path reaching the loop, then assumed (Dafny-style assert)"""
@@ -1558,6 +1574,7 @@ class Exec(object):
             for q in outs: q.pc.append(self.spec(q, hint))
         for q in frame['breaks']:
             for hint in L.get('exit_hints', []): q.pc.append(self.spec(q, hint))
+        self.after_loop(outs + frame['breaks'], n, L)
         return outs + frame['breaks']
 
     # ------------------------------------------------------------------ entry
